@@ -51,6 +51,16 @@ type Net struct {
 	OnOwn func(node int, msg consensus.Message)
 	// OnTimeout is called before a timeout is fired at a node.
 	OnTimeout func(node int, ti consensus.VerifTimeoutInfo)
+	// OwnDone is called after a node's own message has been processed (it is now part of its gossipable state).
+	OwnDone func(node int, msg consensus.Message)
+	// Died reports that node i's process is dead (crash image taken); the node is marked down after the current primitive.
+	Died func(i int) bool
+	// HaltOnDeath freezes the whole network at the instant a node dies (every primitive becomes a no-op), so that the
+	// other nodes are exactly in the state they had at the crash when the node comes back.
+	HaltOnDeath bool
+	Halted      bool
+	// Filter drops a message (true) before it reaches its destination.
+	Filter func(to, from int, msg consensus.Message) bool
 	// After is called after every primitive (delivery, own-queue drain, timeout).
 	After func()
 	// WriteWAL makes the primitives log to the node's WAL like receiveRoutine does.
@@ -81,7 +91,7 @@ func (n *Net) Start() {
 	}
 }
 
-func (n *Net) down(i int) bool { return n.Down != nil && n.Down[i] }
+func (n *Net) down(i int) bool { return n.Halted || (n.Down != nil && n.Down[i]) }
 
 // Close stops all nodes.
 func (n *Net) Close() {
@@ -95,6 +105,9 @@ func (n *Net) Close() {
 // Deliver hands a peer message to node `to` exactly as receiveRoutine would (WAL write, then handleMsg).
 func (n *Net) Deliver(to, from int, msg consensus.Message) {
 	if n.down(to) {
+		return
+	}
+	if n.Filter != nil && n.Filter(to, from, msg) {
 		return
 	}
 	if n.OnDeliver != nil {
@@ -121,9 +134,24 @@ func (n *Net) Deliver(to, from int, msg consensus.Message) {
 	}
 	n.Steps++
 	nd.CS.VerifHandleMsg(mi)
+	n.checkDied(to)
 	if n.After != nil {
 		n.After()
 	}
+}
+
+func (n *Net) checkDied(i int) bool {
+	if n.Died != nil && n.Died(i) {
+		if n.Down == nil {
+			n.Down = make([]bool, len(n.Nodes))
+		}
+		n.Down[i] = true
+		if n.HaltOnDeath {
+			n.Halted = true
+		}
+		return true
+	}
+	return false
 }
 
 // DrainOwn processes the node's own queued messages (proposal, parts, votes) like receiveRoutine does
@@ -148,6 +176,12 @@ func (n *Net) DrainOwn(i int) []consensus.Message {
 		}
 		n.Steps++
 		nd.CS.VerifHandleMsg(mi)
+		if n.checkDied(i) {
+			return out // the dying step publishes nothing
+		}
+		if n.OwnDone != nil {
+			n.OwnDone(i, mi.Msg)
+		}
 		if n.After != nil {
 			n.After()
 		}
@@ -174,6 +208,9 @@ func (n *Net) FireTimeout(i int) bool {
 	n.tracef("timeout n%d %d/%d/%v", i, ti.Height, ti.Round, ti.Step)
 	n.Steps++
 	nd.CS.VerifHandleTimeout(ti)
+	if n.checkDied(i) {
+		return true
+	}
 	if n.After != nil {
 		n.After()
 	}
